@@ -28,6 +28,10 @@ pub struct SchedStats {
     pub max_deviations: usize,
     pub failures: Vec<(Dev, String)>,
     pub machinery_errors: Vec<String>,
+    /// stream calls executed over all executions (the transitions of the explored schedule tree)
+    pub calls_executed: u64,
+    /// a few of the explored schedules, written out
+    pub sample_schedules: Vec<Dev>,
 }
 
 pub struct Explorer<'a, O> {
@@ -42,6 +46,8 @@ impl<'a, O: Send + Sync> Explorer<'a, O> {
     pub fn explore(&self) -> SchedStats {
         let base = (self.run)(&Vec::new());
         let execs = AtomicU64::new(1);
+        let calls = AtomicU64::new(base.sig.len() as u64);
+        let samples: Mutex<Vec<Dev>> = Mutex::new(Vec::new());
         let capped = AtomicBool::new(false);
         let failures: Mutex<Vec<(Dev, String)>> = Mutex::new(Vec::new());
         let merr: Mutex<Vec<String>> = Mutex::new(Vec::new());
@@ -56,7 +62,7 @@ impl<'a, O: Send + Sync> Explorer<'a, O> {
             // first level in parallel
             let firsts: Vec<(usize, usize)> = base.alts.iter().enumerate().flat_map(|(i, n)| (1..=*n as usize).map(move |a| (i, a))).collect();
             firsts.par_iter().for_each(|(i, a)| {
-                self.rec(&base, &base, vec![(*i, *a)], 1, &execs, &capped, &failures, &merr);
+                self.rec(&base, &base, vec![(*i, *a)], 1, &execs, &capped, &failures, &merr, &calls, &samples);
             });
         }
         st.executions = execs.load(Ordering::Relaxed);
@@ -64,6 +70,8 @@ impl<'a, O: Send + Sync> Explorer<'a, O> {
         st.failures = failures.into_inner().unwrap();
         st.failures.sort();
         st.machinery_errors = merr.into_inner().unwrap();
+        st.calls_executed = calls.load(Ordering::Relaxed);
+        st.sample_schedules = samples.into_inner().unwrap();
         st
     }
 
@@ -78,12 +86,22 @@ impl<'a, O: Send + Sync> Explorer<'a, O> {
         capped: &AtomicBool,
         failures: &Mutex<Vec<(Dev, String)>>,
         merr: &Mutex<Vec<String>>,
+        calls: &AtomicU64,
+        samples: &Mutex<Vec<Dev>>,
     ) {
-        if execs.fetch_add(1, Ordering::Relaxed) >= self.cap {
+        let nth = execs.fetch_add(1, Ordering::Relaxed);
+        if nth >= self.cap {
             capped.store(true, Ordering::Relaxed);
             return;
         }
         let x = (self.run)(&dev);
+        calls.fetch_add(x.sig.len() as u64, Ordering::Relaxed);
+        if depth >= 2 && nth % 4099 == 7 {
+            let mut sm = samples.lock().unwrap();
+            if sm.len() < 3 {
+                sm.push(dev.clone());
+            }
+        }
         let last = dev.last().unwrap().0;
         // the prefix before the newest deviation must replay identically
         if x.sig.len() < last || parent.sig.len() < last || x.sig[..last] != parent.sig[..last] {
@@ -110,7 +128,7 @@ impl<'a, O: Send + Sync> Explorer<'a, O> {
                     }
                     let mut d2 = dev.clone();
                     d2.push((i, a));
-                    self.rec(base, &x, d2, depth + 1, execs, capped, failures, merr);
+                    self.rec(base, &x, d2, depth + 1, execs, capped, failures, merr, calls, samples);
                 }
             }
         }
